@@ -1,11 +1,14 @@
 (* C07 - max_advance is a sound promise.
-   Proved (C07_partial): m <= until always; m = until for a simulator without triggering ancestors and nothing else
-   queued.  The main clause (no externally caused step inside (t, m]) is the boolean predicate P_C07 of
-   harness/monitors.py evaluated on every recorded trace (causes reconstructed from the replies); its proof needs a
-   second lower-bound invariant over external candidates and is not done. *)
+   Proved: m <= until always; m = until for a simulator without triggering ancestors and nothing else queued; and the
+   main clause (Sched/Taint.v): after BEGIN(i, t, m), however the run continues, every step of i that has an external
+   cause begins after m.  "External cause" is a ghost component X of the run: at the BEGIN it holds every queued or
+   in-flight step of every simulator except the step t of i itself; what an external step schedules (its next
+   self-step, the steps its outputs trigger) is external; what i's own step t - and every step demanded only by chains
+   starting there - schedules is not.  The same provenance is reconstructed independently from the replies of the real
+   simulators by the monitor P_C07 (harness/monitors.py) on every recorded trace. *)
 From Coq Require Import ZArith List Bool Arith.
 Import ListNotations.
-From MV Require Import Time.Spec Sched.Timing Sched.Inv Sched.Init Sched.Wle Sched.Main Sched.Guards Sched.Final.
+From MV Require Import Time.Spec Sched.Timing Sched.Inv Sched.Init Sched.Wle Sched.Main Sched.Guards Sched.Final Sched.Taint Static.Groups Static.Connect Static.Build Sched.Plane Sched.Link Sched.Certify.
 Open Scope Z_scope.
 
 Theorem C07_partial_bounds : forall st s i t m s', apply st s (EvBegin i t m) = Ok s' ->
@@ -16,3 +19,45 @@ Print Assumptions C07_partial_bounds.
 Theorem C07_partial_le_until : forall st s i, max_advance st s i <= until st.
 Proof. exact max_advance_le_until. Qed.
 Print Assumptions C07_partial_le_until.
+
+(* main clause, for every scenario with static_ok tables, every behaviour and interleaving *)
+Theorem C07_no_external_step_in_window : forall st, static_ok st -> forall s i t m s',
+  reached st s -> apply st s (EvBegin i t m) = Ok s' ->
+  forall evs l, xrun st s' (ext0 s' i) evs = Ok l ->
+  forall s2 X2 c m2 s3, In (s2, X2) ((s', ext0 s' i) :: l) -> apply st s2 (EvBegin i c m2) = Ok s3 ->
+  In c (X2 i) -> m < thd c.
+Proof. exact max_advance_sound. Qed.
+Print Assumptions C07_no_external_step_in_window.
+
+(* the ghost component does not influence the run, and every run has one *)
+Theorem C07_ghost_erasure : forall st evs s X l0, run st s evs = Ok l0 -> exists l, xrun st s X evs = Ok l /\ map fst l = l0.
+Proof. exact xrun_total. Qed.
+Print Assumptions C07_ghost_erasure.
+
+(* non-vacuity: A (time-based, step 1) -> B (event-based, trigger).  B begins its step at 0 and is promised m = 0; A's
+   next step (external to B) triggers B at 1: that step is in X when B begins it, and 0 < 1 *)
+Example C07_nonvacuous :
+  let f := mkF true true false true true 0 false false true in
+  let sc := mkScen [None] (fun _ => 0%nat) (fun i => if Nat.eqb i 0 then TimeBased else EventBased) 2
+                   [mkConn 0 1 2 1 f false 0] [] 5 100 true true in
+  match prepare 100 sc with
+  | Prepared st dt t anc =>
+      exists s s' l, reached st s /\ apply st s (EvBegin 1 [0] 0) = Ok s' /\
+        xrun st s' (ext0 s' 1) [EvStep 1 None; EvBegin 0 [1] 5; EvStep 0 (Some 2); EvData 0 1 [2%nat]] = Ok l /\
+        (let '(s2, X2) := List.last l (s', ext0 s' 1) in In [1] (X2 1%nat) /\ exists s3, apply st s2 (EvBegin 1 [1] 1) = Ok s3)
+  | _ => False end.
+Proof.
+  vm_compute prepare. cbv beta iota.
+  match goal with |- context [reached ?st _] => set (st0 := st) end.
+  destruct (run st0 (init_state st0) [EvStart 0; EvStart 1; EvBegin 0 [0] 5; EvStep 0 (Some 1); EvData 0 0 [2%nat]]) as [l0|] eqn:E;
+    [|vm_compute in E; discriminate].
+  exists (List.last l0 (init_state st0)).
+  vm_compute in E. injection E as <-.
+  match goal with |- context [reached _ ?s0] => set (s := s0) end.
+  destruct (apply st0 s (EvBegin 1 [0] 0)) as [s'|] eqn:Eb; [|vm_compute in Eb; discriminate].
+  exists s'. vm_compute in Eb. injection Eb as <-.
+  match goal with |- context [xrun _ ?s1 ?X ?evs] => destruct (xrun st0 s1 X evs) as [l|] eqn:Ex; [|vm_compute in Ex; discriminate] end.
+  exists l. split; [|split; [reflexivity|split; [reflexivity|]]].
+  - exists [EvStart 0; EvStart 1; EvBegin 0 [0] 5; EvStep 0 (Some 1); EvData 0 0 [2%nat]]. eexists. split; [vm_compute; reflexivity|reflexivity].
+  - vm_compute in Ex. injection Ex as <-. split; [vm_compute; left; reflexivity|]. eexists. vm_compute. reflexivity.
+Qed.
